@@ -64,9 +64,10 @@ def Prog(body): return {"body": list(body)}
 # declared, loops are bounded by dedicated counters.  What a program *means* is decided by TLC.
 # ------------------------------------------------------------------------------------------------
 class Gen:
-    def __init__(self, rnd, size=1.0):
+    def __init__(self, rnd, size=1.0, throwy=False):
         self.r = rnd
         self.size = size
+        self.throwy = throwy      # more throw statements, try statements and callbacks (C07)
         self.uid = 0
         self.funcs = []          # (name, nparams) callable from later code
         self.budget = 0
@@ -92,7 +93,7 @@ class Gen:
         if r < 0.70:
             return Bin(self.pick(["+", "-"]), self.int_expr(sc, depth + 1), self.int_expr(sc, depth + 1))
         if r < 0.74:
-            return Bin("*", self.int_expr(sc, depth + 1), Num(self.r.randrange(0, 4)))
+            return Bin("*", self.int_expr(sc, depth + 1), Num(self.r.randrange(1, 4)))      # never * 0: -0 is outside the fragment
         if r < 0.80:
             return Cond(self.bool_expr(sc, depth + 1), self.int_expr(sc, depth + 1), self.int_expr(sc, depth + 1))
         if r < 0.86 and sc["mut"]:
@@ -142,14 +143,24 @@ class Gen:
             opts.append(SCont(lab))
         if sc["infn"]:
             opts.append(SRet(self.int_expr(sc, 1)))
-        if sc["tries"] > 0 or self.chance(0.15):
+        if sc["tries"] > 0 or self.throwy or self.chance(0.15):
             opts.append(SThrow(self.int_expr(sc, 1)))
+            if self.throwy:
+                opts.append(SThrow(self.int_expr(sc, 1)))
         if not opts:
             return SLog(self.int_expr(sc))
         return self.pick(opts)
 
     def stmt(self, sc, depth):
         r = self.r.random()
+        if self.throwy and depth < 3:
+            if r < 0.22:
+                return self.try_stmt(sc, depth)
+            if r < 0.30:
+                return SIf(self.bool_expr(sc), SBlock([self.exit_stmt(sc)]))
+            if r < 0.36 and sc["arrs"] and sc.get("arrw"):
+                return self.array_stmt(sc, depth)
+            r = self.r.random()
         if depth >= 3 or r < 0.30:
             return SLog(self.int_expr(sc))
         if r < 0.40 and sc["mut"]:
@@ -164,7 +175,7 @@ class Gen:
             return self.switch(sc, depth)
         if r < 0.88:
             return self.try_stmt(sc, depth)
-        if r < 0.92 and sc["arrs"]:
+        if r < 0.92 and sc["arrs"] and sc.get("arrw"):
             return self.array_stmt(sc, depth)
         if r < 0.95:
             lab = self.fresh("B")
@@ -252,7 +263,7 @@ class Gen:
             return SExpr(Call(Dot(Var(a), "push"), [self.int_expr(sc)]))
         x = self.fresh("x")
         inner = dict(sc, ints=sc["ints"] + [x], infn=True, loops=0, breakable=False, labels=[], looplabels=[], tries=0,
-                     decl=[], calls=sc["calls"] - 1)
+                     decl=[], calls=sc["calls"] - 1, arrw=False)
         body = [self.stmt(inner, depth + 1) for _ in range(self.r.randrange(1, 3))]
         body = self.with_decls(inner, body) + [SRet(self.int_expr(inner, 1))]
         fn = Fun("", [x], body) if self.chance(0.7) else Arrow([x], body)
@@ -325,7 +336,7 @@ class Gen:
                 objs.append(o)
                 main.append(SVar((o, Call(Var(mk), [Num(self.r.randrange(0, 5))]))))
         sc = {"ints": list(self.globals), "mut": list(self.globals), "arrs": list(self.garrs), "loops": 0, "breakable": False,
-              "labels": [], "looplabels": [], "infn": False, "tries": 0, "decl": [], "calls": 2}
+              "labels": [], "looplabels": [], "infn": False, "tries": 0, "decl": [], "calls": 2, "arrw": True}
         self.budget = 6
         for _ in range(self.r.randrange(2, 6)):
             if objs and self.chance(0.3):
@@ -343,5 +354,5 @@ class Gen:
         return Prog(body)
 
 
-def random_program(rnd):
-    return Gen(rnd).program()
+def random_program(rnd, throwy=False):
+    return Gen(rnd, throwy=throwy).program()
